@@ -302,8 +302,25 @@ fn check_case(c: &Case) -> Outcome {
                         any_reported.extend(content.iter().cloned());
                     }
                 }
-                let sig = if answers(&c.windows[k].patterns, &any_reported).contains(&r) {
+                // what the OTHER windows have reported so far
+                let mut others_reported: BTreeSet<[String; 3]> = BTreeSet::new();
+                for (w, contents) in reported.iter().enumerate() {
+                    if w == k {
+                        continue;
+                    }
+                    let n = if *at >= c.events.len() { contents.len() } else { reported_upto[*at][w] };
+                    for content in &contents[..n] {
+                        others_reported.extend(content.iter().cloned());
+                    }
+                }
+                // C11-F1 (one shared store) explains a row that is an answer over ONE report of window k plus items other
+                // windows reported; a row that needs items of two different reports of window k itself is something else
+                let shared_store_explains = reported[k][..upto].iter().any(|content| answers(&c.windows[k].patterns, &content.union(&others_reported).cloned().collect()).contains(&r))
+                    || (upto == 0 && answers(&c.windows[k].patterns, &others_reported).contains(&r));
+                let sig = if shared_store_explains {
                     "c11.block.answer_uses_other_windows_content"
+                } else if answers(&c.windows[k].patterns, &any_reported).contains(&r) {
+                    "c11.block.mixes_several_reports_of_its_own_window"
                 } else if answers(&c.windows[k].patterns, &own_stream).contains(&r) {
                     "c11.block.answer_not_within_one_reported_content"
                 } else if answers(&c.windows[k].patterns, &all_stream).contains(&r) {
@@ -555,6 +572,115 @@ impl Part for JoinKeys {
     }
 }
 
+/// Histories in which one window's block could be answered by MIXING two of its own reports: a triple that opens a
+/// report is sent again after a pause longer than the window, next to the second half of a two-pattern block whose
+/// first half travelled (and expired) with the earlier report. The second window is fed at the same instants so that
+/// both fire in the same cycles. Same oracle: the row for the block must be an answer over ONE content the window reported.
+struct StaleMix;
+
+impl Part for StaleMix {
+    type Case = Case;
+    fn name(&self) -> &'static str {
+        "stale-mix"
+    }
+    fn cases(&self, tier: Tier) -> u32 {
+        tier.pick(4_000, 100_000)
+    }
+    fn strategy(&self, _tier: Tier) -> BoxedStrategy<Case> {
+        (
+            (2usize..=6, 1usize..=6, 1usize..=6, 1usize..=6),
+            0u8..4,                                         // block shape of window 0
+            (0usize..3, 0usize..3, 0usize..2, 0usize..2),    // which filler, subject, small offsets
+            (0usize..4, 0usize..4),                          // extra pause beyond the width (both pauses)
+            proptest::collection::vec((0usize..6, 0usize..5, 0usize..3), 0..=3), // optional extra events (position, kind, value)
+            0u8..4,
+            proptest::bool::weighted(0.1),
+            proptest::bool::weighted(0.85),                 // filler really re-sent (else control)
+        )
+            .prop_map(|((w0, s0, w1, s1), shape, (fill, subj, d1, d2), (p1, p2), extras, policy, multi_thread, resend)| {
+                let s0 = s0.min(w0); // overlapping or tumbling window 0
+                let v = |n: &str| PT::Var(n.to_string());
+                let c = |x: &str| PT::C(Tm::Iri(iri(x)));
+                // window 0: a block of two patterns joined on one variable
+                let pats0: Vec<[PT; 3]> = match shape {
+                    0 => vec![[v("r"), c("pa"), v("x")], [v("r"), c("pb"), v("y")]],
+                    1 => vec![[v("r"), c("pa"), v("x")], [v("x"), c("pb"), v("y")]],
+                    2 => vec![[v("x"), c("pa"), v("r")], [v("y"), c("pb"), v("r")]],
+                    _ => vec![[v("r"), c("pa"), v("x")], [v("r"), c("pb"), v("y")], [v("r"), c("pc"), v("z")]],
+                };
+                let r = iri(["s1", "s2", "s3"][subj]);
+                let (half_a, half_b): ([String; 3], [String; 3]) = match shape {
+                    0 | 3 => ([r.clone(), iri("pa"), iri("o1")], [r.clone(), iri("pb"), iri("o2")]),
+                    1 => ([iri("o0"), iri("pa"), r.clone()], [r.clone(), iri("pb"), iri("o2")]),
+                    _ => ([iri("o1"), iri("pa"), r.clone()], [iri("o2"), iri("pb"), r.clone()]),
+                };
+                let third: [String; 3] = [r.clone(), iri("pc"), iri("o3")];
+                // the triple that opens the first report and is sent again: unrelated to the block, or part of it
+                let filler: [String; 3] = match fill {
+                    0 => [iri("f0"), iri("pz"), iri("f1")],
+                    1 => [iri("s9"), iri("pa"), iri("o9")],
+                    _ => if shape == 3 { third.clone() } else { [iri("f0"), iri("pz"), iri("f1")] },
+                };
+                // absolute times on stream 0
+                let t1 = 1usize;
+                let t_half_b = t1 + d1;
+                let t2 = t_half_b + w0 + p1; // pause at least as long as the window: half_b has expired from every later report
+                let t_half_a = t2 + d2.min(w0.saturating_sub(1));
+                let t3 = t_half_a + w0 + s0 + p2;
+                let mut ev0: Vec<(usize, [String; 3])> = vec![(t1, filler.clone()), (t_half_b, half_b.clone())];
+                if shape == 3 {
+                    ev0.push((t_half_b, third.clone()));
+                }
+                if resend {
+                    ev0.push((t2, filler.clone()));
+                }
+                ev0.push((t_half_a, half_a.clone()));
+                if shape == 3 && fill != 2 {
+                    ev0.push((t_half_a, third.clone()));
+                }
+                ev0.push((t3, [iri("f2"), iri("pz"), iri("f3")]));
+                ev0.push((t3 + w0 + s0, [iri("f4"), iri("pz"), iri("f5")]));
+                for (pos, kind, val) in extras {
+                    let at = [t1, t_half_b, t2, t_half_a, t3, t3 + 1][pos];
+                    let t: [String; 3] = match kind {
+                        0 => [iri(["s1", "s2", "s3"][val]), iri("pa"), iri("o1")],
+                        1 => [iri(["s1", "s2", "s3"][val]), iri("pb"), iri("o2")],
+                        2 => half_a.clone(),
+                        3 => half_b.clone(),
+                        _ => filler.clone(),
+                    };
+                    ev0.push((at, t));
+                }
+                ev0.sort_by_key(|e| e.0);
+                // stream 1 is fed at the same instants
+                let mut all: Vec<(usize, usize, [String; 3])> = vec![];
+                for (i, (t, tr)) in ev0.iter().enumerate() {
+                    all.push((*t, 0, tr.clone()));
+                    all.push((*t, 1, [iri(&format!("u{}", i % 3)), iri("qb"), iri(&format!("w{}", i % 2))]));
+                }
+                all.sort_by_key(|e| (e.0, e.1));
+                let mut events = vec![];
+                let mut last = 0usize;
+                for (t, st, tr) in all {
+                    events.push((st, t - last, tr));
+                    last = t;
+                }
+                let windows = vec![Win { width: w0, slide: s0, patterns: pats0 }, Win { width: w1, slide: s1, patterns: vec![[v("u"), c("qb"), v("w")]] }];
+                Case { windows, static_patterns: vec![], static_data: vec![], policy, multi_thread, events }
+            })
+            .boxed()
+    }
+    fn check(&self, c: &Case) -> Outcome {
+        let mut o = check_case(c);
+        o.nontrivial = o.classes.contains(&"rows-emitted") && o.classes.contains(&"all-windows-fired");
+        o
+    }
+    fn describe(&self, c: &Case) -> serde_json::Value {
+        json!({"query": query_text(c), "policy": c.policy % 4, "multi_thread": c.multi_thread,
+               "events": c.events.iter().map(|(s, g, t)| format!("stream{s} +{g} {}", ntriple(t))).collect::<Vec<_>>()})
+    }
+}
+
 fn main() {
     let mut s = Session::start(
         "C11",
@@ -564,11 +690,13 @@ fn main() {
          every emitted row restricted to the variables of block k must be a reference-BGP answer of block k over SOME content window k has reported so far, and its static part an answer of the static patterns over the static data alone. \
          Non-trivial = every window fired, two blocks share a predicate, and at least one row was emitted. \
          Part join-keys: blocks (and the static part) of shapes {?x P ?y | ?r Pa ?x . ?r Pb ?y | ?x Pa ?y . ?x Pb ?z} that join on 2-3 shared variables over a value universe whose tuples are easy to confuse \
-         (IRIs that are prefixes of one another, plain literals 1/12/2/23/3); same oracle; non-trivial there = every window fired, rows emitted, and two parts share >= 2 variables.",
+         (IRIs that are prefixes of one another, plain literals 1/12/2/23/3); same oracle; non-trivial there = every window fired, rows emitted, and two parts share >= 2 variables. \
+         Part stale-mix: histories built so that a two-pattern block could be answered by mixing two reports of its own window (the triple opening one report is sent again after a pause longer than the window, next to the second half of the block whose first half expired with the earlier report; second window fed at the same instants); same oracle.",
     );
     s.assume("existential over past firings of the same window: sound for every synchronisation policy including Steal and for accumulated single-thread buffers");
     s.assume("rows observed after feeding event i are attributed to contents reported up to event i (conservative); stop()/flush() not called");
     s.run(&Multi);
     s.run(&JoinKeys);
+    s.run(&StaleMix);
     std::process::exit(s.finish());
 }
